@@ -738,7 +738,94 @@ func fpCmp(op Op, a, b *Term) *Term {
 			return Bool(x == y)
 		}
 	}
+	if r := fpCmpInt(op, a, b); r != nil {
+		return r
+	}
 	return mk(op, sortBool, a, b)
+}
+
+// intOfF: t is the float64 conversion of an integer term. exact: the integer is, by
+// construction (constant-free extension of at most 53 bits), below 2^53 in magnitude,
+// so the conversion is exact and order preserving. The returned term is the integer
+// as a signed 64-bit value when exact.
+func intOfF(t *Term) (src *Term, exact bool, ok bool) {
+	if t.sort.W != 64 || (t.op != OSBVToF && t.op != OUBVToF) {
+		return nil, false, false
+	}
+	s := t.args[0]
+	signed := t.op == OSBVToF
+	eff := s.sort.W
+	switch s.op {
+	case OZExt:
+		eff = s.args[0].sort.W
+		signed = false
+	case OSExt:
+		if signed {
+			eff = s.args[0].sort.W
+		}
+	}
+	if s.sort.W < 64 {
+		if t.op == OSBVToF {
+			s = SExt(s, 64)
+		} else {
+			s = ZExt(s, 64)
+		}
+	}
+	return s, eff <= 53, true
+}
+
+// fpCmpInt rewrites comparisons between exact integer conversions into integer
+// comparisons (keeps floating point out of the solver context where it is not needed).
+func fpCmpInt(op Op, a, b *Term) *Term {
+	sa, ea, oka := intOfF(a)
+	sb, eb, okb := intOfF(b)
+	if oka && a == b { // an integer conversion is never NaN
+		return Bool(op != OFLt)
+	}
+	if oka && okb && ea && eb {
+		switch op {
+		case OFEq:
+			return Eq(sa, sb)
+		case OFLt:
+			return SLt(sa, sb)
+		case OFLe:
+			return SLe(sa, sb)
+		}
+	}
+	// exact conversion against a constant
+	cmpConst := func(s *Term, c float64, flip bool) *Term {
+		if c != c {
+			return termFalse
+		}
+		if c != math.Trunc(c) || math.Abs(c) >= 1<<53 {
+			if op == OFEq && c != math.Trunc(c) {
+				return termFalse
+			}
+			return nil
+		}
+		k := BV(64, uint64(int64(c)))
+		switch {
+		case op == OFEq:
+			return Eq(s, k)
+		case op == OFLt && !flip:
+			return SLt(s, k)
+		case op == OFLt:
+			return SLt(k, s)
+		case op == OFLe && !flip:
+			return SLe(s, k)
+		default:
+			return SLe(k, s)
+		}
+	}
+	// (for equality with an integer constant below 2^53 the conversion need not be exact:
+	// rounding is monotonic and exact below 2^53, so to_fp(x) == c iff x == c)
+	if oka && (ea || op == OFEq) && b.IsConst() {
+		return cmpConst(sa, b.FVal(), false)
+	}
+	if okb && (eb || op == OFEq) && a.IsConst() {
+		return cmpConst(sb, a.FVal(), true)
+	}
+	return nil
 }
 
 func fpUn(op Op, a *Term) *Term {
